@@ -51,15 +51,15 @@ D=seeded/$P-$L
 mkdir -p "$D/demo"
 cp "$PATCH" "$D/patch.diff"
 for f in $DEMOFILES; do mkdir -p "$D/demo/$(dirname "$f")"; cp "$SRC/$f" "$D/demo/$f"; done
-python3 - "$P" "$L" "$DEMO" "$fired" "$detail" "$SRC/seeded/$L/meta.txt" "$D/meta.json" "$(git -C /repo rev-parse --short HEAD)" "$DEMOFILES" <<'PY'
+python3 - "$P" "$L" "$DEMO" "$fired" "$detail" "$SRC/seeded/$L/meta.txt" "$D/meta.json" "$(git -C /repo rev-parse --short HEAD)" "$DEMOFILES" "$IDS" "$(git rev-parse --short HEAD)" <<'PY'
 import json,sys
-p,l,demo,fired,detail,metatxt,out,head,files=sys.argv[1:10]
+p,l,demo,fired,detail,metatxt,out,head,files,ids,vcommit=sys.argv[1:12]
 try: needs=open(metatxt).read()
 except Exception: needs=""
 json.dump({"id":f"{p}-{l}","breaks_property":p,"source":"independent sub-agent given only the property text and a scratch worktree",
  "needs_to_manifest":needs,"demo_files":files.split(),"demo_command":f"cd <worktree>/v2 && {demo}",
  "confirmed":{"repo_head":head,"baseline_suite_with_change":"66/66 pass","demo_without_change":"passes","demo_with_change":"fails"},
  "what_was_run":"selftest/ingest.sh: patch applied to a fresh scratch worktree of /repo HEAD; ./baseline.sh; demonstration with and without the change; ./run.sh <ID> quick for the listed properties against the changed copy (VERIF_REPO)",
- "quick_checks_that_fired":fired.split(),"first_violation_per_check":detail},open(out,"w"),indent=1)
+ "quick_checks_run":ids.split(),"verif_commit":vcommit,"quick_checks_that_fired":fired.split(),"first_violation_per_check":detail},open(out,"w"),indent=1)
 PY
 echo "RESULT $P-$L CONFIRMED fired:$fired"
